@@ -34,6 +34,7 @@ pub fn rc(enum_name: &'static str, code: c_int) -> Result<(), Er> {
 }
 
 // id accessors are exported symbols of the C library without a Rust-visible path
+#[allow(improper_ctypes)]
 unsafe extern "C" {
     fn iox2_unique_publisher_id_value(handle: iox2_unique_publisher_id_h, id_ptr: *mut u8, id_length: usize);
     fn iox2_unique_client_id_value(handle: iox2_unique_client_id_h, id_ptr: *mut u8, id_length: usize);
